@@ -18,6 +18,17 @@ theorem foldl_fst_inv {α β γ : Type} (g : α × β → γ → α × β) (hg :
   | nil => intro st; rfl
   | cons x l ih => intro st; simp only [List.foldl_cons]; rw [ih, hg]
 
+theorem runAct_dry (t : Name) (k : Nat) (a : Act) (st : World × List Ev) : (runAct true t k a st).1 = st.1 := by
+  unfold runAct
+  split <;> rfl
+
+theorem runActs_dry (t : Name) : ∀ (as : List Act) (k : Nat) (st : World × List Ev),
+    (runActs true t k as st).1 = st.1 := by
+  intro as
+  induction as with
+  | nil => intro k st; rfl
+  | cons a as ih => intro k st; simp only [runActs]; rw [ih, runAct_dry]
+
 theorem taskClean_dry (tbl : Table) (t : Name) (st : World × List Ev) : (taskClean tbl true t st).1 = st.1 := by
   unfold taskClean
   cases tbl[t]? with
@@ -27,7 +38,7 @@ theorem taskClean_dry (tbl : Table) (t : Name) (st : World × List Ev) : (taskCl
     cases tk.kind with
     | nothing => rfl
     | targets => exact foldl_fst_inv _ (rmTarget_dry t) _ _
-    | action w => simp only; split <;> rfl
+    | actions as => exact runActs_dry t as 0 st
 
 theorem cleanTasks_dry (tbl : Table) (forget : Bool) (order : List Name) (w : World) :
     (cleanTasks tbl true forget order w).1 = w := by
@@ -35,6 +46,93 @@ theorem cleanTasks_dry (tbl : Table) (forget : Bool) (order : List Name) (w : Wo
   rw [foldl_fst_inv]
   intro st t
   simp [cleanOne, taskClean_dry]
+
+/-- what may be seen on a dry run: no shell command, and no callable told `dryrun=False`
+    (a callable without the parameter records `false`) -/
+def dryOk : Ev → Prop
+  | .cmd _ _ => False
+  | .ran _ _ d => d = true
+  | _ => True
+
+theorem rmTarget_dryOk (dry : Bool) (t : Name) (st : World × List Ev) (p : Path)
+    (h : ∀ e, e ∈ st.2 → dryOk e) : ∀ e, e ∈ (rmTarget dry t st p).2 → dryOk e := by
+  unfold rmTarget
+  intro e he
+  split at he
+  · simp only [List.mem_append, List.mem_singleton] at he
+    rcases he with he | he
+    · exact h e he
+    · rw [he]; trivial
+  · split at he
+    · split at he <;>
+      · simp only [List.mem_append, List.mem_singleton] at he
+        rcases he with he | he
+        · exact h e he
+        · rw [he]; trivial
+    · exact h e he
+
+theorem runAct_dryOk (t : Name) (k : Nat) (a : Act) (st : World × List Ev)
+    (h : ∀ e, e ∈ st.2 → dryOk e) : ∀ e, e ∈ (runAct true t k a st).2 → dryOk e := by
+  have hp : (ActKind.plain == ActKind.aware) = false := by decide
+  have hc : (ActKind.cmd == ActKind.aware) = false := by decide
+  have ha : (ActKind.aware == ActKind.aware) = true := by decide
+  unfold runAct actRuns
+  intro e he
+  cases hk : a.kind with
+  | aware =>
+    simp only [hk, ha, Bool.not_true, Bool.false_or, if_true, reduceCtorEq, if_false, Bool.and_self,
+      List.mem_append, List.mem_cons, List.not_mem_nil, or_false] at he
+    rcases he with he | he | he
+    · exact h e he
+    · rw [he]; trivial
+    · rw [he]; rfl
+  | plain =>
+    simp only [hk, hp, Bool.not_true, Bool.false_or, Bool.false_eq_true, if_false,
+      List.mem_append, List.mem_cons, List.not_mem_nil, or_false] at he
+    rcases he with he | he
+    · exact h e he
+    · rw [he]; trivial
+  | cmd =>
+    simp only [hk, hc, Bool.not_true, Bool.false_or, Bool.false_eq_true, if_false,
+      List.mem_append, List.mem_cons, List.not_mem_nil, or_false] at he
+    rcases he with he | he
+    · exact h e he
+    · rw [he]; trivial
+
+theorem runActs_dryOk (t : Name) : ∀ (as : List Act) (k : Nat) (st : World × List Ev),
+    (∀ e, e ∈ st.2 → dryOk e) → ∀ e, e ∈ (runActs true t k as st).2 → dryOk e := by
+  intro as
+  induction as with
+  | nil => intro k st h; exact h
+  | cons a as ih => intro k st h; simp only [runActs]; exact ih _ _ (runAct_dryOk t k a st h)
+
+theorem foldl_snd_inv {α β γ : Type} (P : β → Prop) (g : α × β → γ → α × β)
+    (hg : ∀ st x, P st.2 → P (g st x).2) : ∀ (l : List γ) (st : α × β), P st.2 → P (l.foldl g st).2 := by
+  intro l
+  induction l with
+  | nil => intro st h; exact h
+  | cons x l ih => intro st h; simp only [List.foldl_cons]; exact ih _ (hg st x h)
+
+theorem taskClean_dryOk (tbl : Table) (t : Name) (st : World × List Ev)
+    (h : ∀ e, e ∈ st.2 → dryOk e) : ∀ e, e ∈ (taskClean tbl true t st).2 → dryOk e := by
+  unfold taskClean
+  cases tbl[t]? with
+  | none => exact h
+  | some tk =>
+    simp only
+    cases tk.kind with
+    | nothing => exact h
+    | targets =>
+      exact foldl_snd_inv (fun evs => ∀ e, e ∈ evs → dryOk e) _ (fun st p hh => rmTarget_dryOk true t st p hh) _ _ h
+    | actions as => exact runActs_dryOk t as 0 st h
+
+theorem cleanTasks_dryOk (tbl : Table) (forget : Bool) (order : List Name) (w : World) :
+    ∀ e, e ∈ (cleanTasks tbl true forget order w).2 → dryOk e := by
+  unfold cleanTasks
+  refine foldl_snd_inv (fun evs => ∀ e, e ∈ evs → dryOk e) _ ?_ order (w, []) (fun e he => by simp at he)
+  intro st t hh
+  have := taskClean_dryOk tbl t st hh
+  simpa [cleanOne] using this
 
 /-! ### the DB -/
 theorem rmTarget_db (dry : Bool) (t : Name) (st : World × List Ev) (p : Path) :
@@ -56,6 +154,30 @@ theorem foldl_db_inv {γ : Type} (g : World × List Ev → γ → World × List 
   | nil => intro st; rfl
   | cons x l ih => intro st; simp only [List.foldl_cons]; rw [ih, hg]
 
+theorem applyEff_db (e : Option Eff) (w : World) : (applyEff e w).db = w.db := by
+  cases e with
+  | none => rfl
+  | some e =>
+    cases e with
+    | rm p => rfl
+    | mk p => simp only [applyEff]; split <;> rfl
+
+theorem runAct_db (dry : Bool) (t : Name) (k : Nat) (a : Act) (st : World × List Ev) :
+    (runAct dry t k a st).1.db = st.1.db := by
+  unfold runAct
+  split
+  · cases dry
+    · simp [applyEff_db]
+    · rfl
+  · rfl
+
+theorem runActs_db (dry : Bool) (t : Name) : ∀ (as : List Act) (k : Nat) (st : World × List Ev),
+    (runActs dry t k as st).1.db = st.1.db := by
+  intro as
+  induction as with
+  | nil => intro k st; rfl
+  | cons a as ih => intro k st; simp only [runActs]; rw [ih, runAct_db]
+
 theorem taskClean_db (tbl : Table) (dry : Bool) (t : Name) (st : World × List Ev) :
     (taskClean tbl dry t st).1.db = st.1.db := by
   unfold taskClean
@@ -66,7 +188,7 @@ theorem taskClean_db (tbl : Table) (dry : Bool) (t : Name) (st : World × List E
     cases tk.kind with
     | nothing => rfl
     | targets => exact foldl_db_inv _ (rmTarget_db dry t) _ _
-    | action w => simp only; split <;> rfl
+    | actions as => exact runActs_db dry t as 0 st
 
 theorem cleanTasks_db (tbl : Table) (dry forget : Bool) : ∀ (order : List Name) (st : World × List Ev) (x : Name),
     x ∈ ((order.foldl (cleanOne tbl dry forget) st).1.db) ↔
